@@ -65,7 +65,7 @@ def getMonth (vs : Vars F) (fs : Fields F) (k : String) : Option Nat :=
 
 /-- `tools::read_currency`: alias first, then code (lower-cased); returns the currency code -/
 def readCurrency (c : Cfg F) (name : String) : Option String :=
-  let key := name.toLower
+  let key := lowerStr name
   match assoc? c.currencyAlias key with
   | some code => (assoc? c.currencies code).map (·.code)
   | none => (assoc? c.currencies key).map (·.code)
